@@ -77,6 +77,22 @@ def rand_subj(an, depth):
 
 
 # ---------- tree -> Python object ----------
+import functools
+_callkind = [0]
+
+
+def _ident(v):
+    return v
+
+
+class _Returns:
+    def __init__(self, v):
+        self.v = v
+
+    def __call__(self):
+        return self.v
+
+
 def to_py(t):
     tag = t[0]
     if tag == 'num':
@@ -108,6 +124,12 @@ def to_py(t):
         return tuple(to_py(x) for x in t[1])
     if tag == 'call':
         val = to_py(t[1])
+        _callkind[0] += 1
+        k = _callkind[0] % 4
+        if k == 1:
+            return functools.partial(_ident, val)          # a zero-argument callable that is not a function object
+        if k == 3:
+            return _Returns(val)                            # an instance of a class with __call__
         return lambda: val
     raise ValueError(tag)
 
